@@ -63,6 +63,29 @@ impl DcpsDomainParticipant {
                     {
                         matched_participant.last_communication_timestamp = runtime.clock().now();
                     }
+                    // A sample that outlived the lifespan of its writer while it was on its way
+                    // (delayed or repaired late) has expired and must not be presented
+                    if cache_change.kind == ChangeKind::Alive {
+                        let writer_lifespan = data_reader
+                            .matched_publication_list
+                            .iter()
+                            .find(|x| {
+                                x.key().value == <[u8; 16]>::from(cache_change.writer_guid)
+                            })
+                            .map(|x| x.lifespan().duration);
+                        if let (
+                            Some(crate::infrastructure::time::DurationKind::Finite(lifespan)),
+                            Some(source_timestamp),
+                        ) =
+                            (writer_lifespan, cache_change.source_timestamp)
+                        {
+                            if crate::infrastructure::time::Time::from(source_timestamp) + lifespan
+                                < reception_timestamp
+                            {
+                                continue;
+                            }
+                        }
+                    }
                     let Some(type_support) = get_topic_type_support(
                         &data_reader.topic_name,
                         content_filtered_topic_list,
